@@ -146,6 +146,10 @@ def mutations(ops, labels, nstates):
         W3[k] = W[k] * 2
         yield f"weight[{k}]*2", ops, W3
     for k in range(n):
+        if ops[k][0] != "A":
+            # drop an initial / final weight (may leave a machine without initial or final states)
+            yield f"remove {ops[k][0]} op {k}", ops[:k] + ops[k + 1 :], W[:k] + W[k + 1 :]
+    for k in range(n):
         if ops[k][0] == "A":
             yield f"remove arc {k}", ops[:k] + ops[k + 1 :], W[:k] + W[k + 1 :]
             for lab in labels:
